@@ -141,7 +141,7 @@ def run(ctx):
     fs = frozenset
     menu_small = fs([fs(), fs(['V']), fs(['R', 'V']), fs(['C', 'R', 'U', 'V']), fs(['U']), fs(['C'])])
     menu_tiny = fs([fs(), fs(['V']), fs(['C', 'R', 'U', 'V'])])
-    configs = [('2', '1', menu_small)] if ctx.quick else [('2', '1', menu_small), ('3', '1', menu_tiny), ('2', '2', menu_tiny)]
+    configs = [('2', '1', menu_small), ('3', '1', menu_tiny)] if ctx.quick else [('2', '1', menu_small), ('3', '1', menu_tiny), ('2', '2', menu_tiny)]
     ntests = 0
     for nt, no, menu in configs:
         r, states = ctx.tlc_dump('MC_DlisEflr_%s_%s' % (nt, no), 'DlisEflr', consts={'HasMenu': menu}, cfg_consts={'NT': nt, 'NO': no},
